@@ -11,7 +11,9 @@ Integer-dtype diagrams with end points off the grid, float32 / Fortran-order / s
 histories (harness/history.py: landscape objects observed, used as operands, observed again; one diagram swept
 through several grids; one diagram shape in several units) are judged by the same predicate.  Magnitude classes: tiny /
 huge absolute scales (grid steps down to 2^-300), offsets 2^10..2^30 / 1e3..1e7 with short bars, grids of 1025-5000 nodes
-with a few bars."""
+with a few bars.
+Fit-then-transform: a transformer fitted on OTHER diagrams (grid ends learned from them) must return, for the case's diagrams, the
+sampled landscape on the FITTED grid (_train_for / _predicate_fit_other)."""
 from fractions import Fraction
 
 from .. import core, history
@@ -51,6 +53,15 @@ RULE = ("seeded generator; exact family = dyadic start/stop, n-1 in {1,2,4,8,16,
         "configuration; scales (every 7th history) = one diagram shape (exact family or mag_unit) at scale 1, then times 2^k for 2-4 of "
         "k = -10,-20,-30,-34,-40,-50,+30, then at scale 1 again. What persim RETURNS from fit_transform / vectorize is overwritten "
         "(history.scribble) after its values have been read. "
+        "Fit on other data, then transform (every ordinary case, corpus case and history step that is inside the quantifier; not the size / "
+        "fine classes; ~300 of them per quick run with a learned grid end): a PersistenceLandscaper configured like the case is fitted "
+        "on training diagrams A whose extreme birth / death lie at or (5 of 6) strictly beyond those of the case's diagrams B - fit, "
+        "fit_transform(A), fit + transform(A), or sklearn.clone of the fitted estimator fitted again; flatten on in 40%; inside a "
+        "history on the shared estimator object, which fit_transform(B) then refits - and then transforms B: the output must satisfy the "
+        "half-step bound / exactness for B on the FITTED grid (user-fixed ends, the others as the estimator reports them after fit) and "
+        "equal PersLandscapeApprox(B).values on that grid; A keeps B in its family (exact: A on the dyadic lattice of B's coordinates, "
+        "n-1 a power of two; tolerance: B's end points away from the half-way points of the fitted grid; integer diagrams get integer "
+        "training data); predicate only, the Coq model is not run on this observation. "
         "Magnitudes (36 + 36 cases quick / 900 + 900 thorough; also bases of operands / sweep histories and of the failing-input search): exact family "
         "classes tiny (scale 2^-34..2^-300: grid steps below 1e-10), huge (2^40..2^300), offset (|start| = 2^10..2^30, step 2^-14..2^-2, "
         "at most 47 significant bits; never as float32), compared exactly; tolerance-family classes mag_tiny (coordinates of order "
@@ -79,6 +90,10 @@ ASSUMPTIONS = [
     "exact family at other magnitudes: scaling by a power of two and offsets within 47 significant bits keep every operation exact "
     "in binary64 (no subnormals: scales >= 2^-300)",
     "PersistenceLandscaper.fit with an infinite death and stop=None is outside the quantifier (finite diagrams)",
+    "fit on other data, then transform: 'the approximate landscape' a fitted transformer must return for a diagram B is the one on "
+    "the transformer's own grid - linspace(start, stop, num_steps) with the ends the user fixed and, for the others, the values the "
+    "estimator reports after fit (fallback if it reports none: extreme birth / death of the training diagram of the configured "
+    "degree); cases whose B that grid does not cover are outside the quantifier",
     "a diagram is the same finite diagram whatever the dtype (float64, float32, int64, int32: the cast is applied only when it "
     "is exact) and memory layout of its array; the model sees the exact rational values",
     "call histories: a landscape object that has been used as an operand / argument of the landscape tools (never written to by "
